@@ -669,6 +669,7 @@ class Interp(ModelMixin):
 
     def st_With(self, stmt, st):
         outs = [(NEXT, st)]
+        suppressed = []
         for item in stmt.items:
             nxt = []
             for ctl, s in outs:
@@ -676,6 +677,8 @@ class Interp(ModelMixin):
                     nxt.append((ctl, s))
                     continue
                 for v, s2 in self.ev(item.context_expr, s):
+                    if isinstance(v, ExtV) and v.name.startswith('suppress:'):
+                        suppressed.extend(x for x in v.name[len('suppress:'):].split(',') if x)
                     if isinstance(v, Raise):
                         nxt.append((('raise', v.exc), s2))
                     elif item.optional_vars is not None:
@@ -688,7 +691,11 @@ class Interp(ModelMixin):
             if ctl != NEXT:
                 res.append((ctl, s))
             else:
-                res.extend(self.ex_block(stmt.body, s))
+                for ctl2, s2 in self.ex_block(stmt.body, s):
+                    if suppressed and isinstance(ctl2, tuple) and ctl2[0] == 'raise' and any(self.hier.isa(ctl2[1].cls, c) for c in suppressed):
+                        res.append((NEXT, s2))          # contextlib.suppress: the with-block is left normally
+                    else:
+                        res.append((ctl2, s2))
         return res
 
     def st_FunctionDef(self, stmt, st):
